@@ -53,6 +53,7 @@ type ModSet struct {
 	whole     map[string]bool   // array-name prefix (kind|type|path) -> whole array may change
 	refs      map[string][]Term // array-name prefix -> only these object refs may change
 	allocates bool
+	ghosts    map[string]bool // ghost variables that may change
 }
 
 func (m *ModSet) lookup(name string) (whole bool, refs []Term, touched bool) {
@@ -179,8 +180,17 @@ func (x *Exec) fresh(hint string, sort Sort) Term {
 	return x.declare(name, sort)
 }
 
+// assumeLocal: a fact about a value just read (typing); dropped while evaluating under a binder,
+// where the value may mention bound variables.
+func (x *Exec) assumeLocal(t Term) {
+	if x.quiet > 0 {
+		return
+	}
+	x.assume(t)
+}
+
 func (x *Exec) assume(t Term) {
-	if t.S == "true" || x.quiet > 0 {
+	if t.S == "true" {
 		return
 	}
 	x.asserts = append(x.asserts, "(assert "+t.S+")")
@@ -636,27 +646,27 @@ func (x *Exec) assumeTyped(st *State, v Value, t types.Type) {
 	case *types.Basic:
 		if u.Info()&types.IsInteger != 0 {
 			if s, ok := v.(VScalar); ok && !isLiteral(s.T) {
-				x.assume(inRange(s.T, t))
+				x.assumeLocal(inRange(s.T, t))
 			}
 		}
 	case *types.Pointer, *types.Map, *types.Chan:
 		if s, ok := v.(VScalar); ok && !isLiteral(s.T) {
-			x.assume(And(Le(IntLit(0), s.T), Le(s.T, st.wm)))
+			x.assumeLocal(And(Le(IntLit(0), s.T), Le(s.T, st.wm)))
 		}
 	case *types.Slice:
 		s := v.(VSlice)
 		if isLiteral(s.Arr) && isLiteral(s.Len) {
 			return
 		}
-		x.assume(And(Le(IntLit(0), s.Arr), Le(s.Arr, st.wm), Le(IntLit(0), s.Off), Le(IntLit(0), s.Len), Le(s.Len, s.Cap),
-			Le(s.Cap, IntLitStr("1152921504606846976")),
+		x.assumeLocal(And(Le(IntLit(0), s.Arr), Le(s.Arr, st.wm), Le(IntLit(0), s.Off), Le(IntLit(0), s.Len), Le(s.Len, s.Cap),
+			Le(s.Cap, IntLitStr(memLimit)),
 			Implies(Eq(s.Arr, IntLit(0)), Eq(s.Cap, IntLit(0)))))
 	case *types.Interface:
 		i := v.(VIface)
 		if isLiteral(i.Tag) {
 			return
 		}
-		x.assume(And(Le(IntLit(0), i.Tag), Implies(Eq(i.Tag, IntLit(0)), Eq(i.Box, IntLit(0)))))
+		x.assumeLocal(And(Le(IntLit(0), i.Tag), Implies(Eq(i.Tag, IntLit(0)), Eq(i.Box, IntLit(0)))))
 	case *types.Struct:
 		s := v.(VStruct)
 		for i := 0; i < u.NumFields(); i++ {
@@ -669,6 +679,10 @@ func (x *Exec) assumeTyped(st *State, v Value, t types.Type) {
 		}
 	}
 }
+
+// memLimit: no slice, string or map in memory has more than 2^31 elements (a modelling bound on
+// existing data; sizes computed from client integers are not covered by it).
+const memLimit = "2147483648"
 
 func isLiteral(t Term) bool {
 	if t.S == "" {
@@ -834,6 +848,7 @@ type loopInfo struct {
 	ordinal   int
 	writes    *writeLog
 	autosDone bool
+	autoMeasure func(x *Exec, fr *Frame, st *State) Term
 }
 
 type autoInv struct {
@@ -975,6 +990,29 @@ func (x *Exec) analyzeLoops(fr *Frame) {
 			if d, ok := ins.(*ssa.DebugRef); ok && d.Expr != nil {
 				pos = d.Expr.Pos()
 				break
+			}
+		}
+		if !pos.IsValid() {
+			// headers of range loops carry no position: use the first positioned instruction of the body,
+			// then pick the innermost enclosing loop statement that starts before it
+			var bs []*ssa.BasicBlock
+			for b := range li.body {
+				bs = append(bs, b)
+			}
+			sort.Slice(bs, func(i, j int) bool { return bs[i].Index < bs[j].Index })
+			for _, b := range bs {
+				if b == h {
+					continue
+				}
+				for _, ins := range b.Instrs {
+					if ins.Pos().IsValid() {
+						pos = ins.Pos()
+						break
+					}
+				}
+				if pos.IsValid() {
+					break
+				}
 			}
 		}
 		li.pos = pos
